@@ -99,4 +99,6 @@ for _p in ["C01", "C04", "C08", "C09", "C10", "C12", "C15"]:
 PROPS["C04"]["props"] = ["Props/C04.v"]
 PROPS["C08"]["props"] = ["Props/C08.v"]
 PROPS["C12"]["props"] = ["Props/C12.v"]
-PROPS["C15"]["props"] = ["Props/C15.v", "Props/C15a.v"]
+PROPS["C15"]["props"] = ["Props/C15.v", "Props/C15a.v", "Props/C15b.v"]
+PROPS["C01"]["props"] = PROPS["C01"]["props"] + ["Props/C01b.v"]
+PROPS["C09"]["props"] = PROPS["C09"]["props"] + ["Props/C09b.v"]
